@@ -19,7 +19,7 @@ from harness import core, tlc
 
 INVS = ["TypeOK", "Grammar", "GrammarRefOK", "NoStrayException", "DisposedIsStopped", "SinkGrammar"]
 BASE = dict(PlanName="custom", Budget=4, Cfgs={"default"}, TakeNs={1}, Oth={"one"}, Dsps={0})
-QUICK = dict(BASE, Ctxs={"top"}, Fams={"chaos"}, GLen=3, GPost=1, GRaise={0, 1, 2})      # the bare auto-detach observer
+QUICK = dict(BASE, Ctxs={"top"}, Fams={"chaos"}, GLen=3, GPost=2, GRaise={0, 1, 2})      # the bare auto-detach observer
 THOROUGH = dict(BASE, Ctxs={"top", "act"}, Fams={"chaos", "chaos2"}, GLen=4, GPost=2, GRaise={0, 1, 2, 3, 4})
 
 
